@@ -9,8 +9,10 @@ import (
 	"fmt"
 	"os"
 	"path/filepath"
+	"runtime"
 	"sort"
 	"strconv"
+	"strings"
 	"sync"
 	"time"
 )
@@ -250,4 +252,97 @@ func LoadReplay(path string, v any) (part string, err error) {
 		return "", err
 	}
 	return doc.Part, json.Unmarshal(doc.Replay, v)
+}
+
+// T is the subset of *testing.T the helpers need.
+type T interface {
+	Fatalf(string, ...any)
+	Logf(string, ...any)
+}
+
+// Seq is a sequential (enumeration / explicit-state) harness.
+type Seq struct {
+	// Run enumerates this shard's share of the space and records parts and violations in sh.
+	Run func(sh *Shard)
+	// Replay re-executes one recorded case (the "replay" member of a replay file written by
+	// Violate for the given part) without enumerating; it reports whether the violation
+	// reproduces. It must return handled=false for parts it does not know.
+	Replay func(part string, raw json.RawMessage) (handled, reproduced bool, detail string)
+}
+
+// Main is the entry point of a sequential harness test function (contract of bin/vcheck).
+func Main(t T, property string, h Seq) {
+	env := GetEnv(property)
+	if env.Replay != "" {
+		b, err := os.ReadFile(env.Replay)
+		if err != nil {
+			fmt.Printf("REPLAY error: %v\n", err)
+			return
+		}
+		var doc struct {
+			Part   string          `json:"part"`
+			Replay json.RawMessage `json:"replay"`
+		}
+		if err := json.Unmarshal(b, &doc); err != nil {
+			fmt.Printf("REPLAY error: %v\n", err)
+			return
+		}
+		if h.Replay == nil {
+			fmt.Printf("REPLAY skipped: harness has no replay function\n")
+			return
+		}
+		handled, rep, detail := h.Replay(doc.Part, doc.Replay)
+		switch {
+		case !handled:
+			fmt.Printf("REPLAY skipped: part %q not in this unit\n", doc.Part)
+		case rep:
+			fmt.Printf("REPLAY reproduced: %s\n", detail)
+		default:
+			fmt.Printf("REPLAY did not reproduce: %s\n", detail)
+		}
+		return
+	}
+	sh := NewShard(env)
+	h.Run(sh)
+	if err := sh.Finish(); err != nil {
+		t.Fatalf("writing shard result: %v", err)
+	}
+	if sh.NViolations() > 0 || len(sh.Infra) > 0 {
+		t.Fatalf("violations=%d infra=%v", sh.NViolations(), sh.Infra)
+	}
+}
+
+// Catch runs f and returns the recovered panic value and a trimmed stack (nil if no panic).
+func Catch(f func()) (val any, stack string) {
+	defer func() {
+		if r := recover(); r != nil {
+			val = r
+			buf := make([]byte, 8192)
+			n := runtime.Stack(buf, false)
+			stack = string(buf[:n])
+		}
+	}()
+	f()
+	return nil, ""
+}
+
+// PanicSite extracts "file:line" of the first frame under /repo from a stack (the specific part
+// of a crash signature).
+func PanicSite(stack string) string {
+	for _, l := range strings.Split(stack, "\n") {
+		l = strings.TrimSpace(l)
+		if strings.HasPrefix(l, "/repo/") || strings.Contains(l, "/.build/") {
+			if j := strings.Index(l, " +0x"); j >= 0 {
+				l = l[:j]
+			}
+			if strings.Contains(l, "zz_verif_") || strings.Contains(l, "/verif/harness/") {
+				continue
+			}
+			if i := strings.Index(l, "/src/repo/"); i >= 0 {
+				l = l[i+4:]
+			}
+			return l
+		}
+	}
+	return "unknown"
 }
